@@ -1,4 +1,8 @@
 SPECIFICATION TSpec
-INVARIANT CInv
+CONSTANTS
+  Grans = {64, 128, 256}
+  DefGran = 64
+  MinBlock = 65536
+  MaxBlock = 268435456
 CONSTRAINT Progress
 POSTCONDITION TraceAccepted
